@@ -2,6 +2,7 @@ package props
 
 import (
 	"fmt"
+	"regexp"
 	"sort"
 	"strings"
 
@@ -12,6 +13,8 @@ import (
 	"verif/engine/order"
 	"verif/engine/univ"
 )
+
+var bigComponent = regexp.MustCompile(`[0-9]{5}`)
 
 // conjunctiveRange: built only from conjunction (no OR alternative, no exclusion, no identity operator).
 func conjunctiveRange(name, rs string) bool {
@@ -51,6 +54,13 @@ func c20Universe(name string, lvl int) ([]string, []eco.Ver) {
 	for _, i := range base {
 		in[i] = true
 	}
+	// always keep members with a component of 5 or more digits (magnitude-dependent bugs)
+	for _, i := range clean {
+		if !in[i] && bigComponent.MatchString(u.Strs[i]) && len(u.Strs[i]) < 24 {
+			in[i] = true
+			base = append(base, i)
+		}
+	}
 	out := append([]int{}, base...)
 	for _, i := range base {
 		k := 0
@@ -87,7 +97,13 @@ func c20Ranges(name string, lvl int, strs []string) []string {
 			bounds = append(bounds, i)
 		}
 	}
-	for _, i := range stride(bounds, 25) {
+	sel := stride(bounds, 25)
+	for _, i := range bounds {
+		if bigComponent.MatchString(strs[i]) || strs[i] == "1.0.1.10" || strs[i] == "1.0.10" || strs[i] == "1.0.2" {
+			sel = append(sel, i)
+		}
+	}
+	for _, i := range sel {
 		for _, op := range syn.Ops {
 			g = append(g, op+strs[i]+syn.SingleSuffix)
 		}
